@@ -389,18 +389,20 @@ class Ref:
                     r = yield from self.run_block(s[2], inst)
                     if r == "break":
                         break
-                    if r == "return":
+                    if r in ("return", "return-from-try"):
                         return r
             elif op == "while":
                 while True:
                     r = yield from self.run_block(s[1], inst)
                     if r == "break":
                         break
-                    if r == "return":
+                    if r in ("return", "return-from-try"):
                         return r
             elif op == "try":
                 r = yield from self.run_try(s, inst)
                 if r is not None:
+                    if r == "return" and self.bugs.get("nested_return"):
+                        r = "return-from-try"
                     return r
             elif op in ("abort", "break", "continue", "return"):
                 return op
@@ -450,8 +452,16 @@ class Ref:
                 self._abandon(body, handlers)
                 if result == "abort":
                     return None
+                if result == "return-from-try":
+                    # BUG MODEL: `return` reaching this statement from a try-interrupt
+                    # nested inside one of its blocks only ends this statement
+                    return None
                 return result  # None (body finished) / break / continue / return
             yield sig
+            if self.bugs.get("inv_during_sub"):
+                # BUG MODEL: the enclosing invocable's invariants are re-checked after every
+                # yield of a try-interrupt statement, even while a sub-behaviour is running
+                self.check_inv(inst)
 
     def _abandon(self, body, handlers):
         for b in [body] + handlers:
@@ -492,6 +502,8 @@ class Ref:
             except StopIteration:
                 return None
             yield sig
+            if self.bugs.get("inv_during_sub"):
+                self.check_inv(inst)
 
     def do_behavior(self, caller, name):
         d = beh_def(self.p, name)
@@ -585,8 +597,14 @@ class Ref:
             self.check_inv(S)
         S.elapsed = 0
         self.running_scn.append(S)
-        if S.defn["compose"] is not None:
-            S.gen = self.run_block(S.defn["compose"], S)
+        # documented step (1c): a running scenario that is not inside a `do` has its
+        # invariants checked every step; a scenario without a compose block but with
+        # guards therefore behaves like `while True: wait`
+        S.compose = S.defn["compose"]
+        if S.compose is None and (S.defn.get("pre") or S.defn.get("inv")):
+            S.compose = [["while", [["wait"]]]]
+        if S.compose is not None:
+            S.gen = self.run_block(S.compose, S)
         for name in S.agents:
             b = self.behavior_of[name]
             if isinstance(b, str):
@@ -618,7 +636,7 @@ class Ref:
         S.elapsed += 1
         # (d) compose block
         done = False
-        if S.defn["compose"] is not None:
+        if S.compose is not None:
             if S.gen is None:
                 done = True
             else:
